@@ -39,6 +39,18 @@ def _fits_representable(v):
     return False
 
 
+def flat_config(d, prefix="Config"):
+    """flattened model dump, written here independently of nuspacesim.utils.misc.flatten_dict"""
+    out = {}
+    for k, v in d.items():
+        key = prefix + " " + k
+        if isinstance(v, dict):
+            out.update(flat_config(v, key))
+        else:
+            out[key] = v
+    return out
+
+
 def variant_configs(rng, n):
     out = []
     for i in range(n):
@@ -100,7 +112,7 @@ def _job(job):
             if is_run:
                 # the configuration that produced the run is the one in the table's own metadata source: make_config(spec)
                 run_cfg = pipeline.make_config(spec)
-                flat = flatten_dict(run_cfg.model_dump(), "Config", sep=" ")
+                flat = flat_config(run_cfg.model_dump())
                 hdr = fits.getheader(path, 1)
                 events.append({"kind": "hdr", "flat": [[k, _val(v, toks)] for k, v in flat.items() if _fits_representable(v)],
                                "header": [[k, _val(hdr[k], toks)] for k in hdr.keys() if str(k).startswith("Config")],
@@ -143,6 +155,34 @@ def synthetic_events():
         t3 = rt.init(pipeline.make_config({"mode": "Target"}))
         t3.add_columns([np.array([]), np.array([]), np.array([])], names=["beta_rad", "theta_rad", "path_len"])
         cases.append(("empty", t3))
+        # one path written, reloaded, overwritten by the results of another configuration and reloaded again (register semantics)
+        from nuspacesim.config import config_from_fits
+        from drivers.c15 import flatten as flat_attrs
+        shared = os.path.join(d, "shared.fits")
+        seq = [{"altitude": 525.0, "spectrum": "mono", "log_e": 8.25, "set": {"title": "first", "detector.name": "A", "detector.radio.nantennas": 10}},
+               {"altitude": 33.0, "spectrum": "power", "index": 2.4, "lo": 7.0, "hi": 9.5, "set": {"title": "second", "detector.name": "B", "detector.radio.nantennas": 4,
+                                                                                                    "detector.radio.enable": False, "simulation.ionosphere.total_electron_content": 0.0}},
+               {"altitude": 1000.0, "spectrum": "mono", "log_e": 10.5, "cloud": "map", "month": 9, "set": {"title": "third", "detector.name": "C"}}]
+        for k, sp in enumerate(seq):
+            cfg_k = pipeline.make_config(sp)
+            tk = rt.init(cfg_k)
+            tk.add_columns([rng.random(3)], names=["beta_rad"])
+            tk.write(shared, format="fits", overwrite=True)
+            try:
+                rec = config_from_fits(shared)
+                fc, fr = dict(flat_attrs(cfg_k)), dict(flat_attrs(rec))
+                ang = lambda n: n.split(".")[-1] in ANGLE_FIELDS
+                ev.append({"kind": "recon", "ok": True, "cfg": [[a, _val(b, {}, ang(a))] for a, b in fc.items() if b is not None],
+                           "recon": [[a, _val(b, {}, ang(a))] for a, b in fr.items() if b is not None],
+                           "_m": {"sequence_on_one_path": k, "spec": sp}})
+            except Exception as ex:
+                ev.append({"kind": "recon", "ok": False, "cfg": [], "recon": [], "_m": {"sequence_on_one_path": k, "error": repr(ex)[:300]}})
+            from astropy.io import fits as _fits
+            hdr = _fits.getheader(shared, 1)
+            flat = flat_config(cfg_k.model_dump())
+            ev.append({"kind": "hdr", "flat": [[a, _val(b, {})] for a, b in flat.items() if _fits_representable(b)],
+                       "header": [[a, _val(hdr[a], {})] for a in hdr.keys() if str(a).startswith("Config")],
+                       "_m": {"sequence_on_one_path": k, "nflat": len(flat)}})
         for name, t in cases:
             path = os.path.join(d, name + ".fits")
             t.write(path, format="fits", overwrite=True)
